@@ -181,13 +181,17 @@ def check_property(pid, units, tier="quick", seed=0, extra=None):
                 obs.append((r, label, ob))
     real = [(r, l, o) for (r, l, o) in obs if o.kind != "canary"]
     canaries = [(r, l, o) for (r, l, o) in obs if o.kind == "canary"]
+    known = load_known()
+    kf = [f for f in known.get("findings", []) if f.get("property") == pid]
+    for (r, label, ob) in real:
+        # a listed known finding is EXPECTED to be refuted (and is replayed natively below): no escalation of solver budgets for it
+        if any(f.get("obligation") == f"{r.unit.name}/{ob.name}" and f.get("config_contains", "") in label for f in kf):
+            ob.expect_refuted = True
     t1 = time.time()
     sols = smt.discharge([o for _, _, o in real], budget_s=budget, also_cvc5=(tier == "thorough"))
     can = smt.discharge([o for _, _, o in canaries], budget_s=3, refute=False)
     t_solve = time.time() - t1
 
-    known = load_known()
-    kf = [f for f in known.get("findings", []) if f.get("property") == pid]
     violations, undecided, errors, known_hits = [], [], [], []
     by_backend = {}
     proved = 0
